@@ -34,16 +34,16 @@ type c04Op struct {
 }
 
 type c04Scn struct {
-	ID     int     `json:"id"`
-	N      int     `json:"n"`
-	Parent []int   `json:"parent"`
-	Auth   []bool  `json:"auth"`
-	Def    int     `json:"def"`
-	Conf   int     `json:"conf"`
-	Start  int     `json:"start"`
-	Twin   []int   `json:"twin"` // twin[1] shows the prompt of twin[0]
-	Ops    []c04Op `json:"ops"`
-	Seg    string  `json:"seg,omitempty"`
+	ID     int      `json:"id"`
+	N      int      `json:"n"`
+	Parent []int    `json:"parent"`
+	Auth   []string `json:"auth"` // no | asks | grants (marked authenticated, the device grants without asking)
+	Def    int      `json:"def"`
+	Conf   int      `json:"conf"`
+	Start  int      `json:"start"`
+	Twin   []int    `json:"twin"` // twin[1] shows the prompt of twin[0]
+	Ops    []c04Op  `json:"ops"`
+	Seg    string   `json:"seg,omitempty"`
 }
 
 const c04Secret = "En4ble!"
@@ -74,7 +74,7 @@ func c04Run(s *c04Scn, segName string) verdict {
 			lv.Escalate = fmt.Sprintf("up-to %d", i)
 			lv.Deescalate = fmt.Sprintf("leave %d", i)
 
-			if s.Auth[i-1] {
+			if s.Auth[i-1] != "no" {
 				lv.EscalateAuth = true
 				lv.EscalatePrompt = `(?im)^password:\s?$`
 			}
@@ -93,7 +93,7 @@ func c04Run(s *c04Scn, segName string) verdict {
 		var x int
 
 		if n, _ := fmt.Sscanf(line, "up-to %d", &x); n == 1 && x >= 1 && x <= s.N && s.Parent[x-1] == cur {
-			if s.Auth[x-1] {
+			if s.Auth[x-1] == "asks" {
 				c.Pending = &simdev.Ask{Prompt: "Password: ", OnAnswer: func(c *simdev.CLI, a string) string {
 					if a == c04Secret {
 						c.Mode = mode(x)
@@ -157,6 +157,8 @@ func c04Run(s *c04Scn, segName string) verdict {
 			lines = []string{fmt.Sprintf("show c%d", j)}
 		case "configs", "configs-at", "config":
 			lines = []string{fmt.Sprintf("set a%d", j), fmt.Sprintf("set b%d", j)}
+		case "configs-leave":
+			lines = []string{fmt.Sprintf("set a%d", j), fmt.Sprintf("leave %d", op.Target)}
 		}
 
 		var opErr error
@@ -171,7 +173,7 @@ func c04Run(s *c04Scn, segName string) verdict {
 				_, opErr = d.SendCommand(lines[0])
 			case "interactive":
 				_, opErr = d.SendInteractive([]*channel.SendInteractiveEvent{{ChannelInput: lines[0], ChannelResponse: "", HideInput: false}})
-			case "configs":
+			case "configs", "configs-leave":
 				_, opErr = d.SendConfigs(lines)
 			case "config":
 				_, opErr = d.SendConfig(strings.Join(lines, "\n"))
